@@ -58,6 +58,16 @@ func main() {
 		eng.Redirects["net.ParseIP"] = r + "VParseIP"
 		eng.Redirects["net.ParseCIDR"] = r + "VParseCIDR"
 	}
+	if *pkg == "internal/maincmd" {
+		for k, v := range sym.SSHExecRedirects() {
+			eng.Redirects[k] = v
+		}
+	}
+	if *pkg == "internal/anonssh" {
+		for k, v := range sym.SSHRedirects() {
+			eng.Redirects[k] = v
+		}
+	}
 	eng.MaxSteps = *maxsteps
 	eng.Verbose = *verbose
 	eng.LogSMT = *logsmt
